@@ -98,7 +98,9 @@ def monitor(case, obs):
     a, b = obs, obs["glib"]
     if a["outcome"][0] == "fuel" or b["outcome"][0] in ("fuel", "crash") and False: return None
     if a["outcome"] == ["fuel"] or b["outcome"] == ["fuel"]: return None
-    la, lb = a["log"], b["log"]
+    # the moment a typed line is *read* relative to other events depends on when the reader thread gets to run (the GLib loop polls with non-blocking iterations
+    # where MainLoop blocks); what the property compares is which lines reach which screens: the input() events
+    la = [e for e in a["log"] if e[0] != "read"]; lb = [e for e in b["log"] if e[0] != "read"]
     # "up to the moment the application quits": when the MainLoop run ends by a quit request (exit, force-quit, close of the outermost loop, empty stack,
     # quit key - the MainLoop aborts the running handler right there) only the events before it are compared
     quit_a = a["outcome"][0] in ("returned", "raised", "killed"); quit_b = b["outcome"][0] in ("returned", "raised", "killed")
